@@ -7,7 +7,8 @@ checked across calls (coq/LockOrder.v on Gen_Locks.v: acquisitions closed over t
 resolves, interface calls to every implementing method, `locked` parameters followed, cache instances told apart).
 The collection gate of a repository (token channel wgBlock + request count wg) is checked on every path of every function that
 touches it: coq/Gate.v walks the control-flow trees of Gen_Gate.v (rules G1-G5: the token is given back before every return,
-RepoGet counts exactly one reference when it hands out a repository, handlers release what they obtained exactly once) and
+RepoGet counts exactly one reference when it hands out a repository, handlers release what they obtained exactly once; L1-L3:
+every frame returns without a mutex it locked itself, no unlock of a mutex not held, no second lock) and
 GateProofs.v proves what the rules buy in the protocol with any number of threads (one token, count = handles out).
 Search for a failing schedule (the proof obligations may break on a harmless rewrite): stall scenarios on the real server under a watchdog - a request holding a repository while a
 collection tick arrives and further requests queue (other repositories must stay responsive, a cancelled waiter must
